@@ -303,6 +303,23 @@ theorem slide_per_frame_agrees_with_frame_position (channels : List (Option Int)
     ∃ l ch p, iterTiledFull channels planes tr tc R C g sbs = .ok l ∧ l[n]? = some (ch, p, cp, rp, x, y, z) :=
   slidePerFrame_framePosition channels planes tr tc R C g sbs L h n cp rp x y z hn
 
+/-- **Bridge (z origin of `compute_plane_position_tiled_full`, T7k).**  The model computes the z origin of the tile with the
+REGENERATED expression: `float(slice_index - 1) * spacing_between_slices` when both are given, 0 when neither is, TypeError when
+exactly one is (the `sum(...) not in (0, 2)` test is pinned and translated by its meaning). -/
+theorem bridge_plane_position_z (ri ci tr tc : Int) (g : Geo) (z3d : Option (Int × Rat)) (si : Int) (sbs : Rat) :
+    planePositionTiledFull ri ci tr tc g z3d =
+      (match planePositionOffsets ri ci tr tc with
+       | .error e => .error e
+       | .ok (cIdx, rIdx, cPos, rPos) =>
+         match planePositionZ (z3d.map Prod.fst) (z3d.map Prod.snd) with
+         | .error e => .error e
+         | .ok zoff =>
+           let p := pixToRef { g with oz := zoff } cIdx rIdx
+           .ok (cPos, rPos, p.1, p.2.1, p.2.2)) ∧
+    planePositionZ (some si) (some sbs) = .ok (((si - 1 : Int) : Rat) * sbs) ∧ planePositionZ none none = .ok 0 ∧
+    planePositionZ (some si) none = .error .type ∧ planePositionZ none (some sbs) = .error .type :=
+  ⟨planePositionTiledFull_uses_z ri ci tr tc g z3d, planePositionZ_eq si sbs⟩
+
 /-- **Inverse of the frame numbering** (frame number → channel, focal plane, tile).  For every frame number `k = n + 1` of a
 TILED_FULL image with `channels × planes × ⌈R/tr⌉ × ⌈C/tc⌉` frames: the frame is tile column `n mod nc`, tile row
 `(n div nc) mod nr`, focal plane `(n div (nc·nr)) mod planes` of channel `n div (nc·nr·planes)` (an existing channel), and the
@@ -387,6 +404,8 @@ example : ∃ L, slidePerFrame [some 1] 2 2 3 5 4 ⟨0, 0, 1, 1, 0, 0, 0, 1, 0, 
 /-- inverse numbering on the non-square grid 4 × 6 in 2 × 2 tiles (2 tile rows × 3 tile columns), 2 planes: frame 11 = n + 1 with n = 10 is
 channel 0, plane 1 (the second), tile row 1, tile column 1 -/
 example : (10 / 3 / 2 / 2 = 0) ∧ (10 / 3 / 2 % 2 = 1) ∧ (10 / 3 % 2 = 1) ∧ (10 % 3 = 1) := by decide
+example : planePositionZ (some 3) (some (1/2)) = .ok 1 ∧ planePositionZ (some 3) none = .error .type := by
+  constructor <;> simp [planePositionZ]
 example : (⟨0, 0, 0, 1, 0, 0, 0, 1, 0, 1, 1⟩ : Geo).nondegenerate := by
   unfold Geo.nondegenerate; norm_num
 
